@@ -36,6 +36,7 @@ func main() {
 	}
 
 	server := anndb.NewServer(config)
+	verifInstall(server)
 	if err := server.Run(); err != nil {
 		log.Fatal(err)
 	}
